@@ -207,13 +207,13 @@ type bodyTr struct {
 	inClos                 int
 	results                []*types.Var
 	resTrk                 []bool
-	streamKeeps            int
 	addrSlice, derefAssign bool
 	paramType              map[int]types.Type            // parameter register -> declared type
 	parent                 map[types.Object]types.Object // may-alias classes of object variables (union-find)
 	clsSize                map[types.Object]int
 	isParam                map[types.Object]bool
 	objRegs                map[int]bool
+	classRegs              map[int]bool // object registers that stand for a class of variables (not temporaries)
 	closures0              map[types.Object]*ast.FuncLit
 	body                   *node
 }
@@ -701,6 +701,14 @@ func (t *bodyTr) walk(e ast.Expr) {
 			if o, ok := t.p.info.Uses[n].(*types.Var); ok && t.closures[o] != nil {
 				t.fail("closure %s used as a value", o.Name())
 			}
+		case *ast.SelectorExpr:
+			// a bound method value x.M (not called here): whoever gets it holds x
+			if sel, ok := t.p.info.Selections[n]; ok && sel.Kind() == types.MethodVal {
+				if v, rel := t.relVal(n.X); rel {
+					t.emit(&node{op: "escape", v: v, pos: -1, why: "ret", line: t.line(n)})
+				}
+				return false
+			}
 		}
 		return true
 	})
@@ -741,7 +749,16 @@ func (t *bodyTr) relVal(e ast.Expr) (int, bool) {
 	k := kindOf(typ)
 	if k == kNone {
 		if r := t.ifaceParamReg(in); r >= 0 {
-			return r, true // an interface-typed parameter of an internal helper: whatever it carries is kept
+			return r, true // an interface value that may carry byte memory: whatever it carries counts
+		}
+		// an external constructor whose interface-typed result holds some of its arguments (hkdf.New)
+		if c, ok := in.(*ast.CallExpr); ok && isIfaceT(t.typeOf(in)) {
+			if tv, isConv := t.p.info.Types[unparen(c.Fun)]; !isConv || !tv.IsType() {
+				if rs := t.doCall(c); len(rs) > 0 && rs[0] >= 0 {
+					return rs[0], true
+				}
+				return -1, false
+			}
 		}
 	}
 	if k == kNone || k == kArr {
@@ -763,7 +780,7 @@ func (t *bodyTr) relVal(e ast.Expr) (int, bool) {
 func (t *bodyTr) ifaceParamReg(e ast.Expr) int {
 	if id, ok := unparen(e).(*ast.Ident); ok {
 		if o, ok := t.p.info.ObjectOf(id).(*types.Var); ok && kindOf(o.Type()) == kNone {
-			if r, ok := t.regOf[o]; ok {
+			if r, ok := t.regOf[t.find(o)]; ok {
 				return r
 			}
 		}
@@ -779,15 +796,6 @@ func (t *bodyTr) composite(e *ast.CompositeLit) int {
 			t.walk(el)
 		}
 		return t.tmpMake(e)
-	}
-	stream := false
-	if tt := typ; tt != nil {
-		if pt, ok := tt.Underlying().(*types.Pointer); ok {
-			tt = pt.Elem()
-		}
-		if nt, ok := tt.(*types.Named); ok && nt.Obj().Pkg() == t.p.pkg && perStreamType(t.p, "", nt) {
-			stream = true
-		}
 	}
 	// the new object belongs to the class of the objects it refers to (if any)
 	T := -1
@@ -813,10 +821,6 @@ func (t *bodyTr) composite(e *ast.CompositeLit) int {
 			continue
 		}
 		switch {
-		case stream:
-			// per-stream object (io.Writer / io.Reader implementation): what it keeps is the state of
-			// one stream, not of a key, handle or primitive
-			t.streamKeeps++
 		case T < 0:
 			// an object that cannot be followed further holds byte memory: it escapes
 			t.emit(&node{op: "escape", v: v, pos: -1, why: "ret", line: t.line(e)})
@@ -892,25 +896,18 @@ func (t *bodyTr) builtin(name string, call *ast.CallExpr) []int {
 			}
 			return []int{-1}
 		}
-		var vs []int
-		if v := t.eval(call.Args[0]); v >= 0 {
-			vs = append(vs, v)
-		}
+		// a container of slices / objects: the result belongs to the class of the container appended to
+		R := t.evalObj(call.Args[0])
 		for _, a := range call.Args[1:] {
 			if call.Ellipsis.IsValid() {
 				if v := t.eval(a); v >= 0 {
-					vs = append(vs, v)
+					t.store(R, v, call)
 				}
 			} else if v, rel := t.relVal(a); rel {
-				vs = append(vs, v)
+				t.store(R, v, call)
 			}
 		}
-		if len(vs) == 0 {
-			return []int{t.tmpMake(call)}
-		}
-		r := t.newReg("")
-		t.emit(&node{op: "phi", r: r, vs: vs, pos: -1, line: ln})
-		return []int{r}
+		return []int{R}
 	case "copy":
 		d, s := call.Args[0], call.Args[1]
 		if isByteElem(t.typeOf(d)) {
@@ -947,6 +944,9 @@ func (t *bodyTr) builtin(name string, call *ast.CallExpr) []int {
 		}
 		if kindOf(t.typeOf(call)) == kNone {
 			return []int{-1}
+		}
+		if isObjLike(t.typeOf(call)) {
+			return []int{t.objTmpMake(call)}
 		}
 		return []int{t.tmpMake(call)}
 	case "clear":
@@ -1159,19 +1159,14 @@ func (t *bodyTr) resultReg(call *ast.CallExpr, typ types.Type, res resInfo, args
 			vs = append(vs, args[p]...)
 		}
 	}
-	if isObjLike(typ) {
+	if typ == nil || isObjLike(typ) { // typ == nil: an interface value treated as an object
 		if !res.tracked {
 			return t.objTmpOpaque(call)
 		}
-		// the result may be one of the arguments itself, or a new object that holds them
-		T := t.objTmpMake(call)
-		if opq {
-			vs = append(vs, t.objTmpOpaque(call))
+		if len(vs) == 0 && !opq {
+			return t.objTmpMake(call)
 		}
-		if len(vs) > 0 {
-			t.emit(&node{op: "phi", r: T, vs: append([]int{T}, vs...), pos: -1, line: ln})
-		}
-		return T
+		return t.objResult(call, vs, opq)
 	}
 	r := t.newReg("")
 	switch {
@@ -1290,7 +1285,15 @@ func (t *bodyTr) doCall(call *ast.CallExpr) []int {
 	}
 	rts := t.resultTypes(call)
 	setRes := func(i int, roots uint64, seen, tracked bool) {
-		if i >= len(rk) || (rk[i] != kSlice && rk[i] != kObj) {
+		if i >= len(rk) {
+			return
+		}
+		if rk[i] == kNone && isIfaceT(rts[i]) && seen && roots != 0 {
+			// an interface value that holds some of the arguments (e.g. a reader over them)
+			out[i] = t.resultReg(call, nil, resInfo{roots: roots, seen: seen, tracked: true}, args)
+			return
+		}
+		if rk[i] != kSlice && rk[i] != kObj {
 			return
 		}
 		out[i] = t.resultReg(call, rts[i], resInfo{roots: roots, seen: seen, tracked: tracked}, args)
@@ -1302,6 +1305,9 @@ func (t *bodyTr) doCall(call *ast.CallExpr) []int {
 			for _, k := range keys {
 				if s := summaries[k]; s != nil && s.untr == "" {
 					sms = append(sms, s)
+				} else if s != nil && (anyArg || hasRefKind(rk)) {
+					t.fail("calls %s through an interface; that implementation is untranslated", shortKey(k))
+					return out
 				}
 			}
 			if len(keys) == 0 && (anyArg || hasRefKind(rk)) {
@@ -1428,18 +1434,13 @@ func (t *bodyTr) doCall(call *ast.CallExpr) []int {
 		case "", "fresh":
 			out[0] = t.objTmpMake(call)
 		default: // a view of some argument(s): possibly the argument object itself
-			T := t.objTmpMake(call)
-			vs := []int{T}
+			var vs []int
 			for i, a := range args {
 				if eff.res == "any" || eff.res == fmt.Sprint(i) {
 					vs = append(vs, a...)
 				}
 			}
-			if len(vs) == 1 {
-				vs = append(vs, t.objTmpOpaque(call))
-			}
-			t.emit(&node{op: "phi", r: T, vs: vs, pos: -1, line: ln})
-			out[0] = T
+			out[0] = t.objResult(call, vs, len(vs) == 0)
 		}
 	} else if len(rk) > 0 && (rk[0] == kSlice || rk[0] == kObj) {
 		r := t.newReg("")
@@ -1486,6 +1487,17 @@ func (t *bodyTr) doCall(call *ast.CallExpr) []int {
 				t.emit(&node{op: "opaque", r: r, pos: -1, line: ln})
 			}
 		}
+	}
+	if len(eff.holds) > 0 && len(rk) > 0 && rk[0] == kNone {
+		T := t.objTmpMake(call)
+		for _, h := range eff.holds {
+			if h < len(args) {
+				for _, v := range args[h] {
+					t.store(T, v, call)
+				}
+			}
+		}
+		out[0] = T
 	}
 	for i := 1; i < len(rk); i++ {
 		switch {
